@@ -273,54 +273,7 @@ func runC01(c *Check) {
 		}), name, p.InstrPos(rp.In), "repoint:list", "re-pointing ranges over the active list", "list "+list.String())
 	})
 
-	c.Rule("C01.g11", func() {
-		marked := func(l Lit) bool {
-			if !p.NilErr(fnSetRecovery)(l) {
-				return false
-			}
-			ci := callInstr(l)
-			return ci != nil && p.T(ci.Common().Args[1]).Op == "param" && p.T(ci.Common().Args[1]).Name == "4"
-		}
-		var resetCI ssa.CallInstruction
-		clean := func(l Lit) bool {
-			if !p.NilErr("(mysql.IExternalReplication).Reset")(l) {
-				return false
-			}
-			resetCI = callInstr(l)
-			return resetCI != nil
-		}
-		c.Gate(fa, target, "promotion:old-master-handled", "promotion requires the old master to be marked for recovery, or confirmed a clean replica", marked, clean)
-		if resetCI == nil {
-			// no clean-replica branch at all: marking alone gates; acceptable
-			c.Hold(name, "-", "clean-branch", "no unmarked branch exists")
-			return
-		}
-		c.Gate(fa, resetCI, "clean-branch:status-read", "the clean-replica branch requires the old master's replica status to have been read without error", p.NilErr("(*mysql.Node).GetReplicaStatus"))
-		stNonNil := func(l Lit) bool {
-			if l.T.Op != "isnil" || l.Pos {
-				return false
-			}
-			r := ResultOf(l.T.Args[0], 0)
-			return r != nil && p.IsCall(r, "(*mysql.Node).GetReplicaStatus")
-		}
-		c.Gate(fa, resetCI, "clean-branch:status-nonnil", "the clean-replica branch requires a non-nil replica status (the old master is a replica now)", stNonNil)
-		notLost := func(l Lit) bool {
-			if l.Pos || !p.IsCall(l.T, "app.isSlavePermanentlyLost") {
-				return false
-			}
-			st, set := l.T.Args[0], l.T.Args[1]
-			okst := ResultOf(st, 0) != nil && p.IsCall(ResultOf(st, 0), "(*mysql.Node).GetReplicaStatus")
-			okset := searchCall != nil && ResultOf(set, 1) != nil && ResultOf(set, 1).V == searchCall.V
-			return okst && okset
-		}
-		c.Gate(fa, resetCI, "clean-branch:not-lost", "the clean-replica branch requires ¬isSlavePermanentlyLost(old master's status, most recent set)", notLost)
-		// the status is the old master's
-		for _, g := range p.Calls(P, "(*mysql.Node).GetReplicaStatus") {
-			rt := p.T(g.Common().Args[0])
-			okr := p.IsCall(rt, "(*mysql.Cluster).Get") && rt.Args[1].Op == "param" && rt.Args[1].Name == "4"
-			c.Req(okr, name, p.InstrPos(g), "clean-branch:whose-status", "the status examined is the old master's", "receiver "+rt.String())
-		}
-	})
+	c.Rule("C01.g11", func() { checkOldMasterHandled(c) })
 
 	c.Rule("C01.g12", func() {
 		var stopCI, resetCI ssa.CallInstruction
@@ -777,3 +730,65 @@ func checkNewMasterSources(c *Check, P *ssa.Function, target ssa.CallInstruction
 	}
 	c.Req(k > 0, p.Name(f), "-", "filter:has-append", "the position filter builds its result by append", "")
 }
+
+// checkOldMasterHandled: C01.g11 / C11.MARK-SWITCH
+func checkOldMasterHandled(c *Check) {
+	p := c.p
+	P, target := promotionTarget(c)
+	fa := p.FA(P)
+	name := p.Name(P)
+	var searchCall *Term
+	for _, ci := range p.Calls(P, fnSearch) {
+		searchCall = p.T(ci.(ssa.Value))
+	}
+	if searchCall == nil {
+		panic(AnchorError{"most-recent-node search in " + name})
+	}
+
+		marked := func(l Lit) bool {
+			if !p.NilErr(fnSetRecovery)(l) {
+				return false
+			}
+			ci := callInstr(l)
+			return ci != nil && p.T(ci.Common().Args[1]).Op == "param" && p.T(ci.Common().Args[1]).Name == "4"
+		}
+		var resetCI ssa.CallInstruction
+		clean := func(l Lit) bool {
+			if !p.NilErr("(mysql.IExternalReplication).Reset")(l) {
+				return false
+			}
+			resetCI = callInstr(l)
+			return resetCI != nil
+		}
+		c.Gate(fa, target, "promotion:old-master-handled", "promotion requires the old master to be marked for recovery, or confirmed a clean replica", marked, clean)
+		if resetCI == nil {
+			// no clean-replica branch at all: marking alone gates; acceptable
+			c.Hold(name, "-", "clean-branch", "no unmarked branch exists")
+			return
+		}
+		c.Gate(fa, resetCI, "clean-branch:status-read", "the clean-replica branch requires the old master's replica status to have been read without error", p.NilErr("(*mysql.Node).GetReplicaStatus"))
+		stNonNil := func(l Lit) bool {
+			if l.T.Op != "isnil" || l.Pos {
+				return false
+			}
+			r := ResultOf(l.T.Args[0], 0)
+			return r != nil && p.IsCall(r, "(*mysql.Node).GetReplicaStatus")
+		}
+		c.Gate(fa, resetCI, "clean-branch:status-nonnil", "the clean-replica branch requires a non-nil replica status (the old master is a replica now)", stNonNil)
+		notLost := func(l Lit) bool {
+			if l.Pos || !p.IsCall(l.T, "app.isSlavePermanentlyLost") {
+				return false
+			}
+			st, set := l.T.Args[0], l.T.Args[1]
+			okst := ResultOf(st, 0) != nil && p.IsCall(ResultOf(st, 0), "(*mysql.Node).GetReplicaStatus")
+			okset := searchCall != nil && ResultOf(set, 1) != nil && ResultOf(set, 1).V == searchCall.V
+			return okst && okset
+		}
+		c.Gate(fa, resetCI, "clean-branch:not-lost", "the clean-replica branch requires ¬isSlavePermanentlyLost(old master's status, most recent set)", notLost)
+		// the status is the old master's
+		for _, g := range p.Calls(P, "(*mysql.Node).GetReplicaStatus") {
+			rt := p.T(g.Common().Args[0])
+			okr := p.IsCall(rt, "(*mysql.Cluster).Get") && rt.Args[1].Op == "param" && rt.Args[1].Name == "4"
+			c.Req(okr, name, p.InstrPos(g), "clean-branch:whose-status", "the status examined is the old master's", "receiver "+rt.String())
+		}
+	}
